@@ -80,7 +80,7 @@ class FalsySubItem(SubItem):
         return self.b == 1
 
 
-_WATCHED = frozenset(("a", "b", "flag", "tags", "vals", "nxt", "m", "b0", "b1", "b2", "b3", "b4", "b5", "k", "tag", "main",
+_WATCHED = frozenset(("a", "b", "flag", "tags", "vals", "nxt", "m", "b0", "b1", "b2", "b3", "b4", "b5", "b6", "b7", "k", "tag", "main",
                       "items", "sub"))
 _ARMED = [False]
 
